@@ -6,6 +6,7 @@ import ast
 from pta.check import Spec
 from pta.flow import NAMED, Flow, child_paths, fmt_paths, paths_of
 from pta.model import AnalysisError, Model
+from pta.pat import find, has
 from pta.rules.common import (
     COPY, COPYX, MAPPER, MPMS, concrete_kinds, handler_name, short,
 )
@@ -391,8 +392,8 @@ def r_tagonly(c):
     fd = m.func("pytato.transform.materialize._materialize_if_mpms")
     tg = [x for x in ast.walk(fd) if isinstance(x, ast.Call)
           and isinstance(x.func, ast.Attribute) and x.func.attr == "tagged"]
-    c.check(len(tg) == 1 and ast.unparse(tg[0].func.value) == "expr"
-            and "ImplStored()" in ast.unparse(tg[0]), "R05-TAGONLY",
+    c.check(len(tg) == 1 and ast.unparse(tg[0].func.value) == fd.args.args[0].arg
+            and has(tg[0], "ImplStored()"), "R05-TAGONLY",
             "_materialize_if_mpms", "materialises-by-tagging-expr",
             m.loc(m.module_of(fd), fd),
             "materialisation no longer consists of tagging the node itself with "
@@ -425,17 +426,26 @@ def r_ident_keyed(c):
         positional = any(isinstance(x, ast.Call) and isinstance(x.func, ast.Name)
                          and x.func.id == "zip" and "values()" in ast.unparse(x)
                          for s in br.body for x in ast.walk(s))
-        keyed = any(isinstance(x, ast.Subscript) and isinstance(x.value, ast.Name)
-                    and x.value.id in ("a", "b") for s in br.body for x in ast.walk(s))
-        c.check(keyed and not positional and "keys()" in body_src,
+        pa, pb = fd.args.args[0].arg, fd.args.args[1].arg
+        blk = ast.Module(body=br.body, type_ignores=[])
+        keyed = any(has(blk, f"{x}.keys() == {y}.keys() and "
+                             f"all(({y}[$k] is $v for $k, $v in {x}.items()))")
+                    or has(blk, f"{x}.keys() == {y}.keys() and "
+                                f"all(($v is {y}[$k] for $k, $v in {x}.items()))")
+                    or has(blk, f"{x}.keys() == {y}.keys() and "
+                                f"all(({x}[$k] is {y}[$k] for $k in {x}))")
+                    for x, y in ((pa, pb), (pb, pa)))
+        c.check(keyed and not positional,
                 "R05-IDENT-KEYED", name, "mapping-branch", where,
                 "mapping values are compared positionally (zip of .values()): a "
                 "rebuilt mapping with another insertion order is never recognised as "
                 "identical, so identity copies create new nodes")
     # rebuilt sequences are compared element-wise by identity
     for name, fd in fds:
-        src = ast.unparse(fd)
-        c.check(" is " in src and "len(a) == len(b)" in src, "R05-IDENT-KEYED", name,
+        pa, pb = fd.args.args[0].arg, fd.args.args[1].arg
+        c.check(any(has(fd, f"len({pa}) == len({pb}) and "
+                            f"all(({l} is {r} for $x, $y in zip({pa}, {pb}, strict=True)))")
+                    for l, r in (("$x", "$y"), ("$y", "$x"))), "R05-IDENT-KEYED", name,
                 "sequence-branch", m.loc("pytato.array", fd if name[0] == "_" else aug),
                 "sequence entries are no longer compared by identity and length")
 
@@ -465,9 +475,15 @@ def r_dedup_key(c):
                     "one buffer would be merged into one data wrapper")
     # map_data_wrapper returns the first wrapper seen for the key, never writes data
     fd = m.func("pytato.transform.DataWrapperDeduplicator.map_data_wrapper")
-    src = ast.unparse(fd)
-    c.check("self.data_wrapper_cache[cache_key] = expr" in src
-            and "return self.data_wrapper_cache[cache_key]" in src, "R05-DEDUP-KEY",
+    ep = fd.args.args[1].arg
+    c.check(has(fd, f"""
+$k = self._get_data_dedup_cache_key({ep}.data)
+try:
+    return self.data_wrapper_cache[$k]
+except KeyError:
+    self.data_wrapper_cache[$k] = {ep}
+    return {ep}
+"""), "R05-DEDUP-KEY",
             "DataWrapperDeduplicator.map_data_wrapper", "first-seen-wrapper-wins",
             m.loc(m.module_of(fd), fd),
             "the de-duplicator no longer maps equal-key wrappers to the first one seen")
